@@ -46,6 +46,7 @@ package pattern
 //@   assert[C16] at call append#1: literal-exists: fs_exists(elem)
 
 //@ func Glob$1
+//@   assert[C16] at call append#1: a-match-is-the-directory-path-plus-the-name: (p == "." ==> elem == name#0 + sep) && (p != "." ==> elem == p + name#0 + sep)
 //@   assert[C16] at call append#1: match-exists: sep != "" ==> fs_exists(elem)
 
 // Hidden names: a name that begins with a period is passed on only when the
